@@ -17,6 +17,15 @@ CLAIMED = {
         design_ref="3/C19"),
 }
 
+CLAIMED["C10"] = dict(
+    level="model_checking",
+    text="Every section configuration of the stated alphabet (full product for <=1-2 extra sections, deviation-bounded beyond) is built "
+         "on a real CodeHolder; flatten/code_size/copy_flattened_data (every boundary destination size x all flag sets, guard bands) and "
+         "relocate_to_base are checked against the statement-level layout oracle in every configuration.",
+    note="Trusts the harness oracle; alignments/orders/sizes outside the alphabet and more than 4 extra sections are not explored.",
+    technique="bounded exhaustive enumeration of configurations (deviation-bounded DFS over choice points) on the implementation with reference layout oracle",
+    design_ref="3/C10")
+
 NOT_YET = "check not built yet in this round (planned, see DESIGN.md section 3); not claimed until it exists and passes"
 
 
